@@ -422,21 +422,21 @@ Proof.
     - unfold largest_kv. intros H. apply in_rev in H. apply In_skipn in H.
       eapply Permutation_in; [apply sort_kv_perm|exact H].
     - unfold smallest_kv. intros H. apply In_firstn in H. eapply Permutation_in; [apply sort_kv_perm|exact H]. }
-  intros Hin Hk. destruct (k <=? length res)%nat; [right; apply Hres; exact Hin|].
+  intros Hin Hk. destruct (k <=? length res)%nat; [right; exact (Hres _ Hin)|].
   assert (Hlast : t <> [] -> In (0, snd (last (((x0, y0), i0) :: t) ((x0, y0), i0))) (contribs' xl y0 t)).
   { intros Hne. destruct (@exists_last _ t Hne) as [t' [[[xl' yl'] il'] Et]].
     assert (Exl : xl = xl') by (unfold xl; rewrite Et, app_comm_cons, last_last; reflexivity).
     rewrite Et. rewrite app_comm_cons, last_last. cbn [snd]. rewrite contribs'_snoc. apply in_or_app. right. left.
     rewrite Exl. f_equal. lia. }
   destruct t as [|[[x1 y1] i1] t1] eqn:Et.
-  - apply in_app_or in Hin. destruct Hin as [Hin|[<-|[]]]; [right; apply Hres; exact Hin|].
+  - apply in_app_or in Hin. destruct Hin as [Hin|[<-|[]]]; [right; exact (Hres _ Hin)|].
     left. cbn [nextx]. unfold xl. cbn. f_equal. lia.
   - rewrite <- Et in *. fold xl. fold ref2.
     match type of Hin with context [if ?c then _ else _] => destruct c end.
     + apply in_app_or in Hin. destruct Hin as [Hin|[<-|[]]].
-      * apply in_app_or in Hin. destruct Hin as [Hin|[<-|[]]]; [right; apply Hres; exact Hin|].
+      * apply in_app_or in Hin. destruct Hin as [Hin|[<-|[]]]; [right; exact (Hres _ Hin)|].
         left. rewrite Et. cbn [nextx]. reflexivity.
-      * right. apply Hlast. rewrite Et. discriminate.
-    + apply in_app_or in Hin. destruct Hin as [Hin|[<-|[]]]; [right; apply Hres; exact Hin|].
+      * right. refine (Hlast _). rewrite Et. discriminate.
+    + apply in_app_or in Hin. destruct Hin as [Hin|[<-|[]]]; [right; exact (Hres _ Hin)|].
       left. rewrite Et. cbn [nextx]. reflexivity.
 Qed.
